@@ -9,11 +9,15 @@ def run(prog, rep, tier):
                   "explicitly raw; a DIE obtained by moving inside the unit (parent lookup, child/sibling iteration, re-wrapping get_die()) carries "
                   "the import chain of the DIE it came from (local provenance dataflow through out-parameters and helper functions); "
                   "O7: value_cu::cmp and value_abbrev_unit::cmp interpreted on abstract units of two Dwarf files that share section offsets: equal "
-                  "iff the same Dwarf_CU, antisymmetric.")
+                  "iff the same Dwarf_CU, antisymmetric; I1d: value_die::cmp interpreted on pairs of abstract DIEs with the same Dwarf and offset "
+                  "whose import histories agree on the part both know (the child producer restarts the chain, the unit producer carries it in full): "
+                  "the result is equal at every depth of the chain.")
     rep.not_decided = ("all other navigation laws of C05 (child/parent inverse, unit entry = entry, reachability by root child*, equality of a DIE "
                        "reached twice): they quantify over the DIEs of an input file and libdw's answers.")
     apply(rep, "I1", "cooked DIEs derived inside a unit keep the import chain", r_dw.i1(prog), 10)
     apply(rep, "I1c", "import chain and iterator stack move in lockstep", r_dw.i1c(prog), 2)
+    import r_order
+    apply(rep, "I1d", "a DIE with partial import history equals itself with full history", r_order.i1d(prog), 1)
     apply(rep, "I1b", "the parent takes context and import chain from the climbing cursor", r_dw.i1b(prog), 1)
     apply(rep, "M2", "`unit` on a Dwarf lists each unit exactly once, in order, with its own Dwarf_CU and offset", r_dw.m2(prog, tier), 1)
     import r_order
